@@ -377,8 +377,11 @@ void TaskScheduler::SplitAndAddTask( uint32_t threadNum_, SubTaskSet subTask_, u
         if( !m_pPipesPerThread[ threadNum_ ].WriterTryWriteFront( taskToAdd ) )
         {
 
-            // alter range to run the appropriate fraction
-            if( taskToAdd.pTask->m_RangeToRun < rangeToSplit_ )
+            // alter range to run the appropriate fraction (only if the piece at
+            // hand is longer than that: the last piece of a range can be shorter,
+            // and extending it would run indices beyond the end of the range and
+            // step over the loop's termination test)
+            if( taskToAdd.pTask->m_RangeToRun < taskToAdd.partition.end - taskToAdd.partition.start )
             {
                 taskToAdd.partition.end = taskToAdd.partition.start + taskToAdd.pTask->m_RangeToRun;
                 subTask_.partition.start = taskToAdd.partition.end;
